@@ -129,7 +129,7 @@ def run(ctx):
     from . import callsigs as _cs
     from . import findings3 as _f3
     _f3.open_routes(ctx, 'R14.11')
-    _cs.general_rules(ctx, 'R14', ['api.ParquetFile.__init__', 'util.metadata_from_many', 'writer.merge', 'util.analyse_paths'])
+    _cs.general_rules(ctx, 'R14', ['api.ParquetFile.__init__', 'util.metadata_from_many', 'writer.merge', 'util.analyse_paths', 'api.ParquetFile.to_pandas', 'api.ParquetFile.row_group_filename', 'api.ParquetFile.read_row_group_file'])
 
 
 def r144(ctx, api, wr):
